@@ -68,7 +68,7 @@ let step _ cs os =
      (* harness-side trouble that is not an observation of the client *)
      let notes = get o "notes" in
      if notes <> "-" && notes <> "cov-miss" then out := ("BAD\tside=impl\tclause=notes:" ^ notes) :: !out;
-     if M.c06_wf k && not (M.obs_eqb impl model) then
+     if M.c06_wf k && not (M.obs_match k impl model) then
        out := (Printf.sprintf "DIFF\tfields=obs\timpl=%s\tmodel=%s" (show impl) (show model)) :: !out);
   !out
 
